@@ -1557,6 +1557,9 @@ class Interp(object):
         callee, selfv, self_cls, approx = self.resolve_callee(fv, p, node)
         user = callee is None and self.is_user(fv, p)
         d = {"func": fv, "args": args, "kwargs": kwargs, "callee": callee, "user": user, "inlined": False, "approx": approx}
+        if isinstance(fv, tuple) and fv[0] == "attr" and fv[2] == "wait":
+            # what is still referenced by local variables while the thread blocks (reference discipline rules)
+            d["live"] = [(fr.fi.qualname, dict(fr.env)) for fr in p.frames]
         ev = self.emit(p, "call", node, d)
         if callee is not None:
             self.resolved += 1
@@ -1620,6 +1623,13 @@ class Interp(object):
         # mutation of a container invalidates what we know about it
         if isinstance(fv, tuple) and fv[0] == "attr" and fv[2] in MUTATORS:
             self.invalidate(p, fv[1])
+        # a state transition of a future changes what done()/cancelled()/... answer from now on
+        if isinstance(fv, tuple) and fv[0] == "attr" and fv[2] in ("set_result", "set_exception", "set_exception_info", "cancel", "set_running_or_notify_cancel"):
+            r = fv[1][2] if isinstance(fv[1], tuple) and fv[1][0] == "super" else fv[1]
+            for k in [k for k in p.assume if isinstance(k, tuple) and k[0] == "call" and isinstance(k[1], tuple) and k[1][0] == "attr" and k[1][1] == r and k[1][2] in ("done", "cancelled", "running", "exception", "result")]:
+                del p.assume[k]
+            if fv[2].startswith("set_") and fv[2] != "set_running_or_notify_cancel":
+                p.assume[("call", ("attr", r, "done"), (), (), None)] = True
         name = None
         if isinstance(fv, tuple):
             if fv[0] in ("name", "ext", "func", "global"):
